@@ -3140,8 +3140,15 @@ class UTPM(Ring, RawAlgorithmsMixIn):
 
         """
 
-        in_X = numpy.array(in_X)
-        Rb,Cb = numpy.shape(in_X)
+        # fill an object array element by element: numpy.array(in_X) would
+        # iterate over the UTPM instances (they define __len__/__getitem__)
+        Rb = len(in_X)
+        Cb = len(in_X[0])
+        tmp = numpy.empty((Rb,Cb), dtype=object)
+        for r in range(Rb):
+            for c in range(Cb):
+                tmp[r,c] = in_X[r][c]
+        in_X = tmp
 
         # find the degree D and number of directions P
         D = 0; 	P = 0;
